@@ -55,6 +55,10 @@ pub struct C18State {
     pub dead: bool,
     pub unchanged_sweeps: u32,
     pub changed_this_sweep: bool,
+    /// 0: the application is always asked with HighPrioOnly::No; k = 1, 2: the k-th question of every
+    /// probe round comes with HighPrioOnly::Yes (a late token). Declining then is fine; the sweep must
+    /// not lose its place over it (found by a seeded change).
+    pub hp_at: u8,
 }
 
 fn replay_json(s: &C18State) -> Value {
@@ -79,6 +83,7 @@ impl C18State {
             dead: false,
             unchanged_sweeps: 0,
             changed_this_sweep: false,
+            hp_at: 0,
         }
     }
 
@@ -90,11 +95,12 @@ impl C18State {
     /// Ask the application for its next probe; handles the "end of cycle" declines. Returns the probed address.
     fn next_probe(&mut self) -> Option<u8> {
         let now = Instant::from_micros(1000 + self.probes as i64 * 10);
-        for _ in 0..3 {
+        for k in 0..4u8 {
             let mut buf = [0u8; 64];
+            let hp = if self.hp_at != 0 && k + 1 == self.hp_at { HighPrioOnly::Yes } else { HighPrioOnly::No };
             let r = match &mut self.app {
-                App::Live(l) => catch(|| l.transmit_telegram(now, &self.fdl, TelegramTx::new(&mut buf), HighPrioOnly::No)),
-                App::Scan(s) => catch(|| s.transmit_telegram(now, &self.fdl, TelegramTx::new(&mut buf), HighPrioOnly::No)),
+                App::Live(l) => catch(|| l.transmit_telegram(now, &self.fdl, TelegramTx::new(&mut buf), hp)),
+                App::Scan(s) => catch(|| s.transmit_telegram(now, &self.fdl, TelegramTx::new(&mut buf), hp)),
             };
             let r = match r {
                 Ok(r) => r,
@@ -135,7 +141,7 @@ impl C18State {
                 return Some(da);
             }
         }
-        self.fail("never_probes", "three consecutive declines".into());
+        self.fail("never_probes", "four consecutive declines".into());
         None
     }
 
@@ -309,11 +315,11 @@ impl World for C18World {
         if self.s.dead || self.pending.is_none() || self.s.sweep >= self.s.cfg.sweeps {
             0
         } else {
-            7
+            21
         }
     }
     fn step(&self, a: usize, _p: &[u16]) -> Option<Self> {
-        let ans = ANSWERS[a];
+        let ans = ANSWERS[a % 7];
         let (da, idx) = self.pending?;
         // the scanning station's own address never answers (nobody else has it)
         if da == self.s.cfg.ts && ans != Ans::Silent {
@@ -324,6 +330,7 @@ impl World for C18World {
         }
         let mut s = self.s.clone();
         s.history.push(a as u8);
+        s.hp_at = (a / 7) as u8;
         if ans == Ans::ReplyLost {
             s.losses += 1;
         }
@@ -342,14 +349,20 @@ impl World for C18World {
         self.fp
     }
     fn describe_action(&self, a: usize) -> String {
-        format!("{:?}", ANSWERS[a])
+        format!("{:?}{}", ANSWERS[a % 7], ["", " then asked with HighPrioOnly::Yes first", " then asked with HighPrioOnly::Yes second"][a / 7])
     }
 }
 
 /// Bind the direct drive to the real FDL: a real station alone on BusSim runs the application; the
 /// environment answers probes of the given population.
-pub fn under_real_fdl(kind: u8, ts: u8, population: &[u8]) -> Result<Vec<u8>, String> {
-    let params = ParametersBuilder::new(ts, profirust::Baudrate::B500000).slot_bits(200).highest_station_address(8.max(ts + 1)).build();
+pub fn under_real_fdl(kind: u8, ts: u8, population: &[u8], ttr: Option<u32>) -> Result<Vec<u8>, String> {
+    let mut b = ParametersBuilder::new(ts, profirust::Baudrate::B500000);
+    b.slot_bits(200).highest_station_address(8.max(ts + 1));
+    if let Some(t) = ttr {
+        // a target rotation time that every rotation exceeds: the application is asked with HighPrioOnly::Yes
+        b.token_rotation_bits(t);
+    }
+    let params = b.build();
     let slot_us = params.slot_time().total_micros() as i64;
     let mut fdl = FdlActiveStation::new(params);
     let mut bus = BusSim::new(500000, 2);
@@ -469,19 +482,19 @@ pub fn run(tier: Tier) -> ! {
     // binding to the real FDL calling pattern
     let pops: Vec<Vec<u8>> = vec![vec![], vec![3], vec![0, 5, 62, 125]];
     for kind in [0u8, 1] {
-        for pop in &pops {
-            match under_real_fdl(kind, 2, pop) {
+        for (pop, ttr) in pops.iter().flat_map(|p| [(p, None), (p, Some(256u32))]) {
+            match under_real_fdl(kind, 2, pop, ttr) {
                 Ok(list) => {
                     let mut expect = pop.clone();
                     expect.sort();
                     if list != expect {
-                        c.violation("c18.under_fdl.population", format!("kind {kind}: population {expect:?} but the application reports {list:?}"), json!({"world":"w5-fdl","kind":kind,"population":pop}), pop.len() as u64);
+                        c.violation("c18.under_fdl.population", format!("kind {kind} TTR {ttr:?}: population {expect:?} but the application reports {list:?}"), json!({"world":"w5-fdl","kind":kind,"population":pop,"ttr":ttr}), pop.len() as u64);
                     } else {
                         c.witness("c18_under_real_fdl_ok");
                     }
                 }
                 Err(e) => {
-                    c.violation("c18.under_fdl.error", e, json!({"world":"w5-fdl","kind":kind,"population":pop}), pop.len() as u64);
+                    c.violation("c18.under_fdl.error", e, json!({"world":"w5-fdl","kind":kind,"population":pop,"ttr":ttr}), pop.len() as u64);
                 }
             }
         }
@@ -509,7 +522,7 @@ pub fn replay(v: &Value) {
     let r = &v["replay"];
     if r["world"] == "w5-fdl" {
         let pop: Vec<u8> = r["population"].as_array().unwrap().iter().map(|x| x.as_u64().unwrap() as u8).collect();
-        println!("{:?}", under_real_fdl(r["kind"].as_u64().unwrap() as u8, 2, &pop));
+        println!("{:?}", under_real_fdl(r["kind"].as_u64().unwrap() as u8, 2, &pop, r["ttr"].as_u64().map(|x| x as u32)));
         return;
     }
     let cfg = Arc::new(C18Cfg {
@@ -523,7 +536,7 @@ pub fn replay(v: &Value) {
     let mut w = C18World::init(&cfg);
     for a in r["answers"].as_array().unwrap() {
         let a = a.as_u64().unwrap() as usize;
-        println!("probe of #{:?}: environment {:?}", w.pending.map(|p| p.0), ANSWERS[a]);
+        println!("probe of #{:?}: environment {:?} (high-prio question: {})", w.pending.map(|p| p.0), ANSWERS[a % 7], a / 7);
         match w.step(a, &[]) {
             Some(n) => w = n,
             None => {
